@@ -152,6 +152,10 @@ def inline_new_helpers(parsed, ref):
             fams = {_family(c, bodies) for c, _ in ss}
             if len(ss) > MAX_SITES or _family(hid, bodies) in fams:
                 continue          # many users (a real shared function), or recursion
+            if len(ss) > 1 and any(bl['t']['k'] == 'call' and str(((bl['t'].get('f') or {}).get('decl') or (bl['t'].get('f') or {}).get('def') or '')).split('::')[-1] in ('read', 'write', 'lock')
+                                   and any(x in str((bl['t'].get('f') or {}).get('decl') or (bl['t'].get('f') or {}).get('def') or '') for x in ('RwLock', 'Mutex'))
+                                   for bl in h['blocks']):
+                continue          # a shared helper with a critical section of its own is a unit of locking: its callers are judged through it
             if new_cmds and h.get('public'):
                 continue          # API of a new command (see above)
             # the helper must not call itself
